@@ -1,14 +1,8 @@
 //go:build verif
 
-package auctionsV2
+package liquidationsV2
 
 // Machine-checked contracts for the govc verifier (/verif). Comment-only; compiled only with -tags verif.
-
-// Block hook (C15): it never panics, and all of its state changes happen inside wrapped all-or-nothing steps.
-//@ func BeginBlocker
-//@   property C15
-//@   modifies nothing
-//@   nopanic
 
 // Genesis import (C20): whatever state an export produced, importing it never panics.
 //@ func InitGenesis
